@@ -236,29 +236,35 @@ def R5_crossing(run):
     run.title("R5", "calculate_update adds -net when a_to_b else +net to the liquidity; in the swap loop the new liquidity is adopted and the tick "
                     "updated only when the step ended exactly on the next tick and that tick is initialised")
     facts = run.facts
-    fn = facts.need_fn("manager::swap_manager::calculate_update")
+    # (the private helper calculate_update is always analysed inlined into the swap loop: analysis/canon.py ALWAYS_INLINE)
+    fn = facts.need_fn(SL.SWAP)
     run.touch(fn)
     for ab in (False, True):
-        pv = prov_of(fn, {"a_to_b": ab})
-        cs = calls_to(fn, ends("add_liquidity_delta"), ctx={"a_to_b": ab})
+        mm = SL.SwapModel(facts, {"a_to_b": ab})
+        cs = calls_to(fn, ends("add_liquidity_delta"), ctx={"a_to_b": ab}, cut=True)
         ok = False
         found = None
         if len(cs) == 1:
             a0, a1 = cs[0][2]
-            found = sh(a1, 80)
             s = strip(a1)
+            if s[0] == "var":
+                # a named temporary assigned once per direction: take the definition that is feasible in this direction
+                ds = [t for (_, _, t) in mm.pv.var_defs(s[2])]
+                if len(ds) == 1:
+                    s = strip(ds[0])
+            found = sh(s, 80)
             if ab:
                 ok = s[0] == "un" and s[1] == "Neg" and arg_name(s[2]) == "liquidity_net"
             else:
                 ok = arg_name(s) == "liquidity_net" and s[0] == "field"
-            ok = ok and is_param(a0, "liquidity")
+            ok = ok and mm.is_var(a0, "liquidity")
         run.check("R5", "signed-net[a_to_b=%d]" % ab, ok, "crossing with a_to_b=%s adds %s, expected %stick.liquidity_net" % (ab, found, "-" if ab else "+"), loc=fn.loc(),
                   detail="liquidity %s tick.liquidity_net" % ("-" if ab else "+"))
     sw = facts.need_fn(SL.SWAP)
     m = SL.SwapModel(facts, {})
     ups = [(b, l, t) for (b, l, t) in m.updates("liquidity") if not is_field(t, "liquidity")]
-    ok = len(ups) == 1 and mentions(ups[0][2], lambda s: s[0] == "call" and s[1].endswith("calculate_update"))
-    run.check("R5", "liquidity-update", ok, "the loop's liquidity is updated by something other than calculate_update(..).1", loc=sw.loc(), detail="liquidity := calculate_update(..)?.1")
+    ok = len(ups) == 1 and mentions(ups[0][2], lambda s: s[0] == "call" and s[1].endswith("add_liquidity_delta"))
+    run.check("R5", "liquidity-update", ok, "the loop's liquidity is updated by something other than add_liquidity_delta(liquidity, +-tick.liquidity_net)?", loc=sw.loc(), detail="liquidity := add_liquidity_delta(liquidity, signed net)?")
     if ok:
         ub = ups[0][0]
         # guards: next_price == next_tick_sqrt_price, and next_tick_initialized
@@ -283,13 +289,8 @@ def R5_crossing(run):
         ok = len(ut) == 1 and cfg.dominates(sw, ub, ut[0][0]) or (len(ut) == 1 and cfg.dominates(sw, ut[0][0], ub))
         if len(ut) == 1:
             a = ut[0][2]
-            ok = ok and mentions(a[4], lambda s: s[0] == "call" and s[1].endswith("calculate_update"))
-        run.check("R5", "tick-updated-with-cross", ok, "the crossed tick is not updated with calculate_update(..).0 together with the liquidity change", loc=sw.loc(), detail="update_tick(.., calculate_update(..)?.0)")
-        cu = calls_to(sw, ends("calculate_update"), ctx={}, cut=True)
-        if len(cu) == 1:
-            a = cu[0][2]
-            ok = is_param(a[1], "a_to_b") and m.is_var(a[2], "liquidity")
-            run.check("R5", "calculate_update-args", ok, "calculate_update is not called with (tick, a_to_b, current liquidity, ..)", loc=sw.loc(cu[0][1]["l"]), detail="(next tick, a_to_b, current liquidity, ..)")
+            ok = ok and mentions(a[4], lambda s: s[0] == "call" and s[1].endswith("next_tick_cross_update"))
+        run.check("R5", "tick-updated-with-cross", ok, "the crossed tick is not updated with next_tick_cross_update(..) together with the liquidity change", loc=sw.loc(), detail="update_tick(.., next_tick_cross_update(..)?)")
 
 
 def R6_sync(run):
